@@ -121,8 +121,8 @@ def counters(chk, repo):
            "checked or cleared: their counters accumulate and a failing "
            "input terminal goes unnoticed" if not ok else
            "reads and writes alike")
-    ok = len(rec) == 1 and unparse(rec[0].targets[0].slice) == \
-        "self.size - 2" and unparse(rec[0].value) == "counter"
+    ok = len(rec) == 1 and match("self.size - 2", rec[0].targets[0].slice) \
+        is not None and unparse(rec[0].value) == "counter"
     chk.ob("R30.2", sp.qualname + ".append", "keyed at the working counter's "
            "position", ok, rec[0] if rec else ap, "size - 2 after the "
            "append")
